@@ -272,8 +272,13 @@ class Lib:
                 if ia is not None and ia.kind == "i":
                     # a[i, idx] = v
                     i0 = to_int(ev[0])
-                    mem, _ = membership(E, ia, st)
+                    mem, wit = membership(E, ia, st)
                     old = d.sel
+                    if va is not None and va.ndim == 1:
+                        # a[i, idx] = w: w[t] lands in column idx[t] of row i (some occurrence for repeated indices)
+                        return ArrData(d.shape, lambda i, j: _ite_val(z3.And(i == i0, mem(j)), va.sel(wit(j)), old(i, j)), kind)
+                    if isinstance(v, Ref):
+                        raise Unsupported("store " + unparse(node))
                     return ArrData(d.shape, lambda i, j: _ite_val(z3.And(i == i0, mem(j)), v, old(i, j)), kind)
             if d.ndim == 2 and len(ev) == 2 and ev[1] is None and isinstance(ev[0], Ref):
                 ma = as_array(ev[0], st)
@@ -1377,11 +1382,11 @@ def register_builtins(L):
         r.concat_of = tuple(arrs)
         return st.alloc(r)
 
-    @fn("np.append", "np.size", "np.issubdtype", "np.shape", "np.ndim", "np.array_equal", "np.allclose", "np.mean", "np.std",
+    @fn("np.size", "np.issubdtype", "np.shape", "np.ndim", "np.array_equal", "np.allclose", "np.mean", "np.std",
         "np.var", "np.dot", "np.matmul", "np.exp", "np.log", "np.abs", "np.sqrt", "np.square", "np.nan_to_num", "np.tile",
         "np.isin", "np.argsort", "np.stack", "np.vstack", "np.hstack", "np.linalg.norm", "np.average", "np.cumsum", "np.diff",
         "np.clip", "np.round", "np.floor", "np.ceil", "np.prod", "np.diag", "np.outer", "np.einsum", "np.take_along_axis",
-        "np.argpartition", "np.delete", "np.meshgrid", "np.linspace", "np.isfinite", "np.isinf", "np.sign", "np.power")
+        "np.argpartition", "np.meshgrid", "np.linspace", "np.isfinite", "np.isinf", "np.sign", "np.power")
     def _np_pure(E, st, args, kw, node):
         """numpy functions without a contract here: the result is unknown, the arguments are NOT modified (pure functions)"""
         name = unparse(node.func)
@@ -1389,6 +1394,32 @@ def register_builtins(L):
         st.events.append(("call", name, args, kw, r, {a.id: st.heap.get(a.id) for a in list(args) + list(kw.values()) if isinstance(a, Ref)}))
         E.abstracted.add(name + " (pure, result unknown)")
         return r
+
+    @fn("np.append")
+    def _np_append(E, st, args, kw, node):
+        """np.append(a, b[, axis=0]) of two 1-D arrays of one kind: the entries of a followed by those of b"""
+        a, b = (as_array(x, st) if isinstance(x, Ref) else None for x in args[:2])
+        ax = kw.get("axis", args[2] if len(args) > 2 else None)
+        if a is None or b is None or a.ndim != 1 or b.ndim != 1 or ax not in (None, 0) or a.kind != b.kind:
+            return _np_pure(E, st, args, kw, node)
+        _used(E, "np.append of 1-D arrays: entries in order")
+        n = to_int(a.shape[0])
+        return st.alloc(ArrData((z3.simplify(n + to_int(b.shape[0])),), lambda i: _ite_val(i < n, a.sel(i), b.sel(i - n)), a.kind))
+
+    @fn("np.delete")
+    def _np_delete(E, st, args, kw, node):
+        """np.delete(a, p) / np.delete(a, [p][, axis=0]) for ONE in-range position p: a without its entry (row) p, order kept"""
+        a = as_array(args[0], st) if isinstance(args[0], Ref) else None
+        pv = args[1] if len(args) > 1 else kw.get("obj")
+        ax = kw.get("axis", args[2] if len(args) > 2 else None)
+        pa = as_array(pv, st) if isinstance(pv, Ref) else None
+        one = pa is not None and pa.ndim == 1 and pa.kind == "i" and z3.is_true(z3.simplify(to_int(pa.shape[0]) == 1))
+        if a is None or not (one or (is_scalar(pv) and is_int_like(pv))) or not ((a.ndim == 1 and ax in (None, 0)) or (a.ndim == 2 and ax == 0)):
+            return _np_pure(E, st, args, kw, node)
+        _used(E, "np.delete of one position (the other entries keep their order)")
+        p0 = to_int(pa.sel(z3.IntVal(0))) if one else to_int(pv)
+        n = to_int(a.shape[0])
+        return st.alloc(ArrData((z3.simplify(n - 1),) + tuple(a.shape[1:]), lambda i, *r: a.sel(z3.If(i < p0, i, i + 1), *r), a.kind))
 
     @fn("np.eye")
     def _np_eye(E, st, args, kw, node):
